@@ -198,11 +198,6 @@ Fixpoint match_all (es : list expect) (os : list oentry) : bool :=
   | e :: r => match remove_first (matches e) os with Some os' => match_all r os' | None => false end
   end.
 
-Definition is_nhcb (o : oentry) : bool := match o with ONhcb _ _ => true | _ => false end.
-Definition to_o (e : bentry) : oentry :=
-  match e with
-  | BSeries s v => OSeries s v | BHist s h => OHist s h | BType n t => OType n t | BOther k a b => OOther k a b
-  end.
 
 Definition holds (c : case) : bool :=
   let ann := annotate (c_letab c) 0 (-1) EmptyString (c_base c) in
